@@ -127,6 +127,70 @@ CHECKS['C17'] = dict(
     note='Trusted: Lean kernel/standard axioms; gcc/nm; the harness.',
     design='5 (C17), 3.2')
 
+CHECKS['C01'] = dict(
+    engine='h-layout',
+    technique='Lean 4 proof (reader/writer round trip and frame at the scalar level for both byte orders and the memcpy '
+              'path; agreement of structure alignment between the TSDL text and the C layout) + three ties of the layout '
+              'model to the code (real operation trees, parsed real metadata, two independent CTF readers on real packets) + '
+              'decoding oracle on the C tracer',
+    text='Partial. Proved for every carrier, value, size, offset and buffer: reading a field back with the CTF reader '
+         'returns the written value reduced to the field size (signed reduction included), a later write does not disturb '
+         'a non-overlapping field, the alignment a reader computes from the text equals the alignment the serialiser uses, '
+         'the text states the sizes/signedness/lengths the serialiser uses. Not proved: the composition to whole records and '
+         'packets (decodePacket o serRecord). That is evaluated on every run: real packets are decoded with the parsed real '
+         'metadata by an independent reader and compared with the traced arguments (all scopes, user packet context members).',
+    note='Trusted: Lean kernel/standard axioms; the strict TSDL parser + CTF reader (oracle) and its Lean twin; differential '
+         'ties. Known finding F9. F7 (real fields converted through uint64_t) fixed in /repo.',
+    design='5 (C01), 3.2 (H-layout)')
+CHECKS['C13'] = dict(
+    engine='h-layout',
+    technique='Lean 4 proof (ID assignment is invariant under permutation, sorted, injective; decide over the iteration-site '
+              'table REGENERATED from /repo by a translator) + generation under several PYTHONHASHSEED values and mapping '
+              'permutations, byte-compared',
+    text='IDs: full (ids_perm_invariant, ids_sorted, ids_injective, ids_complete over the transcription of '
+         'sorted(key=name)+enumerate). Hash-seed independence: partial by nature: CPython hash randomisation is represented as '
+         'an arbitrary iteration order of name-hashed sets, and set_iterations_sorted proves, over the table of every such '
+         'iteration regenerated from the templates and Python sources on every run, that each one that emits text is sorted. '
+         'Oracle: real generation in subprocesses under different hash seeds and permuted mappings must be byte-identical.',
+    note='Trusted: Lean kernel/standard axioms; the translator harness/itersites.py (regex over Jinja for-loops incl. set '
+         'aliases; ast over the Python sources); str order = code point order.',
+    design='5 (C13), 3.3')
+CHECKS['C14'] = dict(
+    engine='h-layout',
+    technique='Lean 4 proof (C type selection and prototype construction) + exhaustive table comparison of _ft_c_type + '
+              'prototype differential + strict compilation by gcc/clang/g++/clang++',
+    text='Partial. Proved: the carrier of an integer is the smallest of 8/16/32/64 that holds it with its signedness; reals are '
+         'float/double whatever the alignment; a tracing function takes exactly the members of common context, specific '
+         'context and payload in order; arrays are pointers to const elements, a dynamic array is preceded by its uint32_t '
+         'length. Ties: exhaustive comparison of the real _ft_c_type over its whole domain, every prototype of every '
+         'generated header. NOT a theorem: ISO C90 / C++ conformance of the emitted text - evaluated by four compilers with '
+         '-pedantic-errors on every sample, header-only translation units included.',
+    note='Trusted: Lean kernel/standard axioms; the compilers; rendering of C type strings is tied by the prototype diff.',
+    design='5 (C14)')
+CHECKS['C15'] = dict(
+    engine='h-layout',
+    technique='Lean 4 proof (escape/unescape round trip, no bare quote or raw new-line, log level 0 emitted, value forms) + '
+              'strict TSDL parsing of every generated metadata + attribute-by-attribute comparison with the configuration + '
+              'differential of the real escape filter',
+    text='Partial. Proved over the transcription of _filt_escape_dq and of the emission tests: a reader recovers every string '
+         'exactly, a literal can neither end early nor span lines, a log level (including 0) is always stated. "Parses under '
+         'the grammar" and "states every attribute" are established per sample by the strict parser and the attribute '
+         'comparison (trace, environment, clocks, events, every integer and enumeration of every root structure), with '
+         'boundary values. F5 (log level 0 dropped) and F6 (raw new-line in literals) were found by this check and fixed.',
+    note='Trusted: Lean kernel/standard axioms; the strict TSDL parser.',
+    design='5 (C15)')
+CHECKS['C19'] = dict(
+    engine='h-layout',
+    technique='Lean 4 proof (every symbol/file name carries its prefix; prefix-free prefixes give disjoint symbol sets; '
+              'shorthand macros resolve) + nm of the compiled object, CLI file names with/without --prefix, preprocessor '
+              'expansion of the macros and of the tracepoint() shim, two tracers linked and run in one program',
+    text='Full under the recorded reading "different = prefix-free" (prefix_overlap_possible proves that unequal nested '
+         'prefixes can collide). symbols_prefixed, files_prefixed, cli_prefix_override, prefixfree_disjoint, '
+         'shorthand_resolves, shorthand_target_defined over the transcription of the naming templates; tied to the code by the '
+         'external symbols of the compiled object, the files the CLI writes, gcc -E expansions and link+run of two tracers.',
+    note='Trusted: Lean kernel/standard axioms; gcc, nm; the harness.',
+    design='5 (C19)')
+
 NOT_APPLICABLE = {
 }
 
@@ -166,6 +230,7 @@ def main():
         'engines': [
             {'name': 'lean', 'path': 'lean', 'serves_properties': sorted(CHECKS), 'kind_free_text': 'Lean 4 model (lean/BVM/Model), proofs (lean/BVM/Proofs), property theorems (lean/BVM/Props), compiled line-protocol driver (lean/Driver)'},
             {'name': 'h-bits', 'path': 'harness/hbits.py', 'serves_properties': ['C08'], 'kind_free_text': 'exhaustive-shape differential of the rendered bit-field macros vs the Lean model vs a bit-by-bit reference'},
+            {'name': 'h-layout', 'path': 'harness/hlayout.py', 'serves_properties': [p for p in sorted(CHECKS) if CHECKS[p]['engine'] == 'h-layout'], 'kind_free_text': 'real operation trees, parsed real metadata (strict TSDL parser), prototypes, symbols, file names, generation subprocesses vs the Lean layout/API/ID/metadata models'},
             {'name': 'h-runtime', 'path': 'harness/hrt.py', 'serves_properties': [p for p in sorted(CHECKS) if CHECKS[p]['engine'] == 'h-runtime'], 'kind_free_text': 'scripted-platform history runner for the generated tracer (guard-paged buffer, forked per history) vs the Lean runtime model'},
         ],
         'checks': checks,
